@@ -3,6 +3,7 @@ package main
 import (
 	"go/token"
 	"go/types"
+	"sort"
 	"strings"
 
 	"golang.org/x/tools/go/ssa"
@@ -1047,4 +1048,238 @@ func runCompensationScansAll(c *Ctx) {
 			"one tick can race several channels (an all-channels unsubscribe): stopping at the first leaves the others with a presence entry for a connection that is not subscribed"+instrAt(w, bad))
 	}
 	c.Anchor("C06.R6", "membership lookup in compensateRacedPresence", n >= 1)
+}
+
+func init() {
+	r4doc("C39", "C39.R6", "K3 lockset: the subscribe-time buffer is read and written only under its own mutex")
+	round3Hooks["C39"] = append(round3Hooks["C39"], runPubBufferUnderLock)
+	r4doc("C42", "C42.R5", "K2: between the capacity read that selects the size class and the Put nothing changes the buffer's capacity")
+	round3Hooks["C42"] = append(round3Hooks["C42"], runPutKeepsCapacity)
+	r4doc("C41", "C41.R6", "value flow: a control command addressed to one node is published to that node, never widened to all")
+	round3Hooks["C41"] = append(round3Hooks["C41"], runControlTargetUnchanged)
+	r4doc("C36", "C36.R6", "K2: the stale timer never closes an authenticated, usable connection")
+	round3Hooks["C36"] = append(round3Hooks["C36"], runStaleOnlyUnauthenticated)
+}
+
+// runPubBufferUnderLock (C39.R6): publications that arrive while a subscribe is recovering are appended
+// to subscribeState.pubBuffer under pubBufferMu, and the subscriber takes the whole buffer under the same
+// mutex. Any read of the buffer (its length included) made before the mutex is held can be stale: a
+// publication appended in between is neither returned nor delivered later, and because the lost entries
+// are the tail no gap is detected.
+func runPubBufferUnderLock(c *Ctx) {
+	w := c.W
+	n := 0
+	for _, f := range moduleFuncs(w) {
+		if f.Pkg == nil || !strings.HasSuffix(f.Pkg.Pkg.Path(), "internal/recovery") {
+			continue
+		}
+		for _, acc := range FieldAccesses(f, "subscribeState", "pubBuffer") {
+			n++
+			held := w.Locks().HeldAt(acc.In)
+			c.Check("C39.R6", acc.In, "subscribeState.pubBuffer accessed ("+acc.Kind+") under pubBufferMu", held.Holds("pubBufferMu", true),
+				"a length or content read outside the buffer's mutex can miss a publication appended meanwhile: it is dropped with the buffer and never delivered (held: "+held.String()+")")
+		}
+	}
+	c.Anchor("C39.R6", "accesses of subscribeState.pubBuffer", n >= 3)
+}
+
+// runPutKeepsCapacity (C42.R5): PutByteBuffer files a buffer under the size class of the capacity it read,
+// then resets it. The reset may only re-slice (which keeps the capacity): a store into ByteBuffer.B /
+// itemBuf.B of anything else (nil, a fresh smaller slice) between the capacity read and the Put leaves a
+// buffer in a class it no longer fits, and the next Get of that class hands out an undersized buffer.
+func runPutKeepsCapacity(c *Ctx) {
+	w := c.W
+	n := 0
+	for _, fam := range []struct{ pkg, put, typ string }{{"internal/bpool", "PutByteBuffer", "ByteBuffer"}, {"centrifuge", "putItemBuf", "itemBuf"}} {
+		put := w.Func(fam.pkg, fam.put)
+		if !c.Anchor("C42.R5", fam.put, put) {
+			continue
+		}
+		w.Deep(put, 2).Each(func(in ssa.Instruction) {
+			st, ok := in.(*ssa.Store)
+			if !ok {
+				return
+			}
+			fa, ok := st.Addr.(*ssa.FieldAddr)
+			if !ok || !fieldAddrIs(fa, fam.typ, "B") {
+				return
+			}
+			n++
+			sl, isSlice := st.Val.(*ssa.Slice)
+			keeps := isSlice && sl.Max == nil && loadsField(sl.X, fam.typ, "B")
+			c.Check("C42.R5", st, "a store into "+fam.typ+".B on the way to the pool only re-slices the buffer", keeps,
+				"the size class was chosen from the capacity read before this store: a buffer whose capacity changes afterwards sits in a class it does not fit and is handed out undersized ("+D(st.Val)+")")
+		})
+	}
+	c.Anchor("C42.R5", "stores into pooled buffers on the Put path", n >= 2)
+}
+
+// runControlTargetUnchanged (C41.R6): survey ids are per-node counters; what keeps a survey response out
+// of another node's survey with the same id is that it is published to the requesting node only. In
+// publishControl the node id handed to Controller.PublishControl is the function's own parameter,
+// unchanged on every path.
+func runControlTargetUnchanged(c *Ctx) {
+	w := c.W
+	fn := w.Func("centrifuge", "(*Node).publishControl")
+	if !c.Anchor("C41.R6", "(*Node).publishControl", fn) {
+		return
+	}
+	n := 0
+	EachInstr(fn, func(in ssa.Instruction) {
+		call, ok := in.(*ssa.Call)
+		if !ok || !call.Call.IsInvoke() || call.Call.Method.Name() != "PublishControl" {
+			return
+		}
+		n++
+		okAll := true
+		k := 0
+		for _, a := range call.Call.Args {
+			b, isB := a.Type().Underlying().(*types.Basic)
+			if !isB || b.Kind() != types.String {
+				continue
+			}
+			k++
+			if k == 1 {
+				// the node id: first string argument
+				if _, isParam := a.(*ssa.Parameter); !isParam {
+					okAll = false
+				}
+			}
+		}
+		c.Check("C41.R6", in, "the target node id reaches the controller unchanged", okAll && k >= 1,
+			"a command addressed to one node that is re-targeted (to all nodes for an unknown target) delivers a survey response to nodes that did not ask: a survey with the same numeric id on another node accepts it as an answer")
+	})
+	c.Anchor("C41.R6", "Controller.PublishControl call in publishControl", n >= 1)
+}
+
+// runStaleOnlyUnauthenticated (C36.R6): the stale timer exists for connections that never authenticate
+// (or were marked unusable). A connection is authenticated — and registered in the hub — some time before
+// its status becomes connected (connect-time subscriptions, OnConnect handler), so the decision must be
+// made on authenticated/unusable, not on the status: assuming authenticated == true and unusable == false
+// no close is reachable in closeStale.
+func runStaleOnlyUnauthenticated(c *Ctx) {
+	w := c.W
+	fn := w.Func("centrifuge", "(*Client).closeStale")
+	if !c.Anchor("C36.R6", "(*Client).closeStale", fn) {
+		return
+	}
+	closes := w.wrapMay(w.calleeIs("Client.close"), 1)
+	if !c.Anchor("C36.R6", "close call in closeStale", len(CallsIn(fn, true, w.calleeIs("Client.close"))) > 0) {
+		return
+	}
+	bad := PathQ{
+		Goal: func(in ssa.Instruction) bool {
+			if _, isMC := in.(*ssa.MakeClosure); isMC {
+				return false
+			}
+			return asCall(in) != nil && closes(in)
+		},
+		EdgeCond: func(cond ssa.Value, outcome bool) bool {
+			if loadsField(cond, "Client", "authenticated") {
+				return outcome
+			}
+			if loadsField(cond, "Client", "unusable") {
+				return !outcome
+			}
+			return true
+		},
+	}.FromEntry(fn)
+	c.CheckAt("C36.R6", "(*centrifuge.Client).closeStale: an authenticated, usable connection is never closed as stale", w.Pos(fn.Pos()), bad == nil,
+		"a connection is authenticated before its status becomes connected (connect-time subscriptions and the OnConnect handler run in between): a stale timer that decides on anything else closes a healthy connection mid-connect"+instrAt(w, bad))
+}
+
+func init() {
+	r4doc("C38", "C38.R7", "conservation: what the queue's byte counter gains on Add it loses on Remove (same payload fields)")
+	round3Hooks["C38"] = append(round3Hooks["C38"], runSizeAccountingSymmetric)
+}
+
+// fieldChain: names of the fields selected on the way to v, innermost last, up to the first non-field step.
+func fieldChain(v ssa.Value) string {
+	var names []string
+	for i := 0; i < 8; i++ {
+		switch x := v.(type) {
+		case *ssa.UnOp:
+			if x.Op != token.MUL {
+				i = 8
+				break
+			}
+			v = x.X
+			continue
+		case *ssa.FieldAddr:
+			if _, f, ok := FieldOf(x); ok {
+				names = append([]string{f}, names...)
+			}
+			v = x.X
+			continue
+		case *ssa.Field:
+			if _, f, ok := FieldOf(x); ok {
+				names = append([]string{f}, names...)
+			}
+			v = x.X
+			continue
+		}
+		break
+	}
+	return strings.Join(names, ".")
+}
+
+// runSizeAccountingSymmetric (C38.R7): publicationQueue.size is compared with the medium's byte limit;
+// publications are dropped when it is exceeded. The counter is exact only if Remove gives back exactly
+// what Add took: the set of payload fields whose length Add adds equals the set Remove subtracts. A
+// field counted on one side only makes the counter drift until an empty queue looks full and every
+// publication is dropped silently.
+func runSizeAccountingSymmetric(c *Ctx) {
+	w := c.W
+	added, removed := map[string]bool{}, map[string]bool{}
+	var pos string
+	for _, f := range moduleFuncs(w) {
+		if f.Signature.Recv() == nil || typeShort(f.Signature.Recv().Type()) != "publicationQueue" {
+			continue
+		}
+		for _, st := range storesToField(f, false, "publicationQueue", "size") {
+			b, ok := st.Val.(*ssa.BinOp)
+			if !ok || (b.Op != token.ADD && b.Op != token.SUB) || !loadsField(b.X, "publicationQueue", "size") {
+				continue
+			}
+			call, ok := b.Y.(*ssa.Call)
+			if !ok {
+				continue
+			}
+			bi, ok := call.Call.Value.(*ssa.Builtin)
+			if !ok || bi.Name() != "len" {
+				continue
+			}
+			chain := fieldChain(call.Call.Args[0])
+			// keep the last two names: <publication field>.<payload field>
+			parts := strings.Split(chain, ".")
+			if len(parts) > 2 {
+				parts = parts[len(parts)-2:]
+			}
+			key := strings.Join(parts, ".")
+			if b.Op == token.ADD {
+				added[key] = true
+			} else {
+				removed[key] = true
+			}
+			pos = w.InstrPos(st)
+		}
+	}
+	if !c.Anchor("C38.R7", "byte accounting of publicationQueue", len(added) >= 1 && len(removed) >= 1) {
+		return
+	}
+	var onlyAdd, onlyRem []string
+	for k := range added {
+		if !removed[k] {
+			onlyAdd = append(onlyAdd, k)
+		}
+	}
+	for k := range removed {
+		if !added[k] {
+			onlyRem = append(onlyRem, k)
+		}
+	}
+	sort.Strings(onlyAdd)
+	sort.Strings(onlyRem)
+	c.CheckAt("C38.R7", "publicationQueue: the payload fields counted into size on Add are the ones given back on Remove", pos, len(onlyAdd) == 0 && len(onlyRem) == 0,
+		"counted on one side only: added "+strings.Join(onlyAdd, ",")+" removed "+strings.Join(onlyRem, ",")+" — the counter drifts until an empty queue exceeds the byte limit and every publication is dropped without any signal")
 }
